@@ -18,6 +18,10 @@ pub enum Op {
     FilterText { exact: bool, bytes: Vec<u8> },
     /// C15: `FilterKind::from_str` on arbitrary text
     FilterParse { text: String },
+    /// C07: `Capability::merge` (and `ReplicaInfo::merge_capability`) of the capability of document
+    /// `n` (write or read) with that of document `m`; then, with the merged capability, whether a
+    /// replica of `n` can author
+    Merge { n: usize, write: bool, m: usize, other_write: bool },
 }
 
 pub struct StoreProp {
@@ -359,6 +363,7 @@ impl Property for StoreProp {
                         // state that an import must leave alone: useful peers, download policy
                         14 if rng.chance(1, 2) => ops.push(Op::S(SOp::Peer { n, t: 100 + ops.len() as u64, p: rng.below(4) as u8 })),
                         14 => ops.push(Op::S(SOp::SetPolicy { n, pol: gen_pol(rng) })),
+                        15 if rng.chance(1, 2) => ops.push(Op::Merge { n, write: rng.chance(1, 2), m: if rng.chance(1, 2) { n } else { rng.below(3) }, other_write: rng.chance(1, 2) }),
                         _ => ops.push(Op::S(SOp::ObserveAll)),
                     }
                 }
@@ -443,6 +448,33 @@ impl Property for StoreProp {
                     w.lines.push(Line::model(format!("filtertext {tok} {}", utf8 as u8), format!("{} {}", hex(text.as_bytes()), imp)));
                     w.lines.push(Line::oracle(format!("filterid {tok}"), imp));
                 }
+                Op::Merge { n, write, m, other_write } => {
+                    use iroh_docs::sync::Capability;
+                    let cap = |i: usize, w: bool| if w { Capability::Write(self.keys.namespaces[i].clone()) } else { Capability::Read(self.keys.namespaces[i].id()) };
+                    let mut mine = cap(*n, *write);
+                    let other = cap(*m, *other_write);
+                    let show = |c: &Capability| { let (k, raw) = c.raw(); format!("{} {} {}", hex(c.id().as_bytes()), k, hex(&raw)) };
+                    let before = show(&mine);
+                    let args = format!("{} {}", before, show(&other));
+                    let imp = match mine.merge(other.clone()) {
+                        Ok(changed) => format!("ok {} {}", changed as u8, show(&mine)),
+                        Err(_) => "err:namespace-mismatch".to_string(),
+                    };
+                    w.lines.push(Line::model(format!("capmerge {args}"), imp.clone()));
+                    // specification, in the words of the property: another document's capability changes
+                    // nothing; a write capability is never lost; read + write secret of the same document = write
+                    let want = if m != n {
+                        "err:namespace-mismatch".to_string()
+                    } else if !*write && *other_write {
+                        format!("ok 1 {}", show(&other))
+                    } else {
+                        format!("ok 0 {before}")
+                    };
+                    w.lines.push(Line::oracle(format!("sconst {}", want.replace(' ', "_")), imp.replace(' ', "_")));
+                    if m != n && show(&mine) != before {
+                        w.lines.push(Line::oracle("sconst refused-merge-changes-nothing", "refused-merge-changed-the-capability"));
+                    }
+                }
                 Op::FilterParse { text } => {
                     let back: Result<FilterKind, _> = text.parse();
                     let imp = match back {
@@ -467,6 +499,7 @@ impl Property for StoreProp {
                 Op::PolicyMatch { .. } => "op:policy-match".into(),
                 Op::FilterText { .. } => "op:filter-text".into(),
                 Op::FilterParse { .. } => "op:filter-parse".into(),
+                Op::Merge { n, m, .. } => format!("op:merge-{}", if n == m { "same-document" } else { "other-document" }),
             });
         }
         for l in lines {
